@@ -120,6 +120,32 @@ extern uint64_t *        total_lib_memory; // library Memory malloc'd
         }                                                                  \
     } while (0)
 
+#ifdef SVT_AV1_VERIF
+/* verification hook (property C16): thread / mutex / semaphore creation fails at the k-th counted site
+ * (see EbMalloc.h).  Originals: EB_CREATE_THREAD above, EB_CREATE_SEMAPHORE / EB_CREATE_MUTEX in EbDefinitions.h. */
+int svt_verif_fail_here(const char *file, int line);
+#if !defined(_WIN32) && defined(__linux__)
+#undef EB_CREATE_THREAD
+#define EB_CREATE_THREAD(pointer, thread_function, thread_context)                           \
+    do {                                                                                     \
+        pointer = svt_verif_fail_here(__FILE__, __LINE__) ? NULL : svt_create_thread(thread_function, thread_context); \
+        EB_ADD_MEM(pointer, 1, EB_THREAD);                                                   \
+        pthread_setaffinity_np(*((pthread_t *)pointer), sizeof(cpu_set_t), &group_affinity); \
+    } while (0)
+#endif
+#undef EB_CREATE_SEMAPHORE
+#define EB_CREATE_SEMAPHORE(pointer, initial_count, max_count) \
+    do { \
+        pointer = svt_verif_fail_here(__FILE__, __LINE__) ? NULL : svt_create_semaphore(initial_count, max_count); \
+        EB_ADD_MEM(pointer, 1, EB_SEMAPHORE); \
+    }while (0)
+#undef EB_CREATE_MUTEX
+#define EB_CREATE_MUTEX(pointer) \
+    do { \
+        pointer = svt_verif_fail_here(__FILE__, __LINE__) ? NULL : svt_create_mutex(); \
+        EB_ADD_MEM(pointer, 1, EB_MUTEX); \
+    } while (0)
+#endif /* SVT_AV1_VERIF */
 void atomic_set_u32(AtomicVarU32 *var, uint32_t in);
 
 #if FIX_DDL
